@@ -801,6 +801,7 @@ class Text(JupyterMixin):
                         "style must not be set when appending Text instance"
                     )
                 text_length = self._length
+                other_spans = text._spans[:]  # text may be self
                 if text.style is not None:
                     self._spans.append(
                         _Span(text_length, text_length + len(text), text.style)
@@ -808,7 +809,7 @@ class Text(JupyterMixin):
                 self._text.append(text.plain)
                 self._spans.extend(
                     _Span(start + text_length, end + text_length, style)
-                    for start, end, style in text._spans
+                    for start, end, style in other_spans
                 )
                 self._length += len(text)
         return self
@@ -822,12 +823,13 @@ class Text(JupyterMixin):
         """
         _Span = Span
         text_length = self._length
+        other_spans = text._spans[:]  # text may be self
         if text.style is not None:
             self._spans.append(_Span(text_length, text_length + len(text), text.style))
         self._text.append(text.plain)
         self._spans.extend(
             _Span(start + text_length, end + text_length, style)
-            for start, end, style in text._spans
+            for start, end, style in other_spans
         )
         self._length += len(text)
         return self
